@@ -539,10 +539,23 @@ def _build_decay_modes(
     mother = next(iter(dc_dict.keys()))
     dms = dc_dict[mother]
 
-    for dm in dms:
-        # Single decay chains are allowed, which means a particle cannot have 2 decay modes
-        if mother in decay_modes:
+    # Single decay chains are allowed, which means a particle cannot have 2 decay modes
+    if len(dms) > 1:
+        raise RuntimeError("Input is not a single decay chain!") from None
+
+    # The same decaying particle may occur several times in a chain,
+    # as long as it decays the same way every time
+    if mother in decay_modes and dms:
+        again: dict[str, DecayMode] = {}
+        _build_decay_modes(again, dc_dict)
+        if any(
+            k not in decay_modes or dm.to_dict() != decay_modes[k].to_dict()
+            for k, dm in again.items()
+        ):
             raise RuntimeError("Input is not a single decay chain!") from None
+        return
+
+    for dm in dms:
 
         try:
             fs = dm["fs"]
